@@ -127,7 +127,7 @@ class HResult(QsysShot):
 
 def _cast_primitive_bit(data: DataValue) -> BitChar:
     if isinstance(data, int) and data in {0, 1}:
-        return str(data)  # type: ignore[return-value]
+        return str(int(data))  # type: ignore[return-value]
     msg = f"Expected bit data for register value found {data}"
     raise ValueError(msg)
 
